@@ -5,7 +5,7 @@
     plus Clock.Now() and whether the call panicked.
 
     The variant [gd] is determined by the harness by probing the real code once (create an
-    At node, never observe it, advance past its time: a panic = the code as it is,
+    At node, never observe it, advance past its time: a panic = SetStale without the guard,
     [gd = false]; no panic = the repaired SetStale, [gd = true]), so the same cases file
     replays before and after the repair (in the repaired SetStale the early return comes
     before the [setAt] stamp, and the model variant does the same). *)
